@@ -750,7 +750,16 @@ def parse_spec(case):
                 bk=set() if bk == '-' else set(bk.split('+')), exp=E, ntok=len(t))
 
 
+def split_items(obs):
+    """(outcome part, items verdict) of an observation `<outcome> items=ok|items=bad:…`."""
+    i = obs.rfind(' items=')
+    if i < 0:
+        return obs, None
+    return obs[:i], obs[i + 7:]
+
+
 def parse_obs(obs):
+    obs, _ = split_items(obs)
     t = obs.split(' ')
     if t[0] != 'loaded':
         return None
@@ -764,6 +773,11 @@ def parse_obs(obs):
 def oracle_common(case, obs):
     S = parse_spec(case)
     kind = S['kind']
+    obs, items = split_items(obs)
+    if items is not None and items != 'ok':
+        # the abstract description given to the model is not what the real parsers find in the bytes:
+        # a defect of the generator / renderer (it also shows as a model-vs-implementation disagreement)
+        return 'abstract description not confirmed by the real parsers: %s' % items[:200]
     if kind == 'other':
         return None
     if obs in ('panic', 'timeout', 'missing') or obs.startswith('crash'):
